@@ -65,6 +65,11 @@ type Case struct {
 	// literal (&Set{Flags: fs, ParseFunc: ...}) that registers its flags on
 	// the first Value() call, instead of being built by NewSetWithArgs.
 	SetLiteral bool `json:"set_literal,omitempty"`
+	// EnvCalls (env check only) lists the supplied leaves of further Value()
+	// calls made, in order, on the SAME *env.Source with the SAME config type;
+	// the environment is changed in between (the variables of one call are
+	// removed before the next one is set up).
+	EnvCalls []map[string]uint64 `json:"env_calls,omitempty"`
 	// More (decoder checks only) lists further decodes made, in order, through
 	// the SAME alias-wrapped decoder value as the first one: each has its own
 	// config type, supplied leaves and elements (its NoSetSlice / More are
@@ -109,6 +114,9 @@ type decorator struct {
 	// embSrcUsed: EmbSrc (absolute source-specific names) is embedded at most
 	// once per config type.
 	embSrcUsed bool
+	// forceAlias / noAlias name injected fields that must / must not get a
+	// dialsalias tag (and no source-specific tags).
+	forceAlias, noAlias map[string]bool
 }
 
 const nameBudget = 96
@@ -199,7 +207,10 @@ func (d *decorator) decorate(fs []shape.Field, aliasedAbove int) {
 		if d.names > nameBudget {
 			aliasPct = 0
 		}
-		aliased := rapid.IntRange(0, 99).Draw(d.t, "has_alias") < aliasPct
+		if d.noAlias[f.Name] {
+			aliasPct = 0
+		}
+		aliased := rapid.IntRange(0, 99).Draw(d.t, "has_alias") < aliasPct || d.forceAlias[f.Name]
 		if f.Kind == "leaf" {
 			d.names += 1 << aliasedAbove
 			if aliased {
@@ -219,7 +230,7 @@ func (d *decorator) decorate(fs []shape.Field, aliasedAbove int) {
 				tags = append(tags, fmt.Sprintf(`json:%q`, dv+",omitempty"), fmt.Sprintf(`yaml:%q`, dv+",omitempty"), fmt.Sprintf(`toml:%q`, dv+",omitempty"))
 			}
 		}
-		if f.Kind == "leaf" && !underAliased {
+		if f.Kind == "leaf" && !underAliased && !d.forceAlias[f.Name] {
 			kinds := []string{d.src.spTag}
 			if !d.src.flatten {
 				// tags of other sources are noise for a decoder
@@ -309,8 +320,17 @@ func (d *decorator) decorateEmbed(f *shape.Field, aliasedAbove int) {
 	f.Tag = strings.Join(tags, " ")
 }
 
+// varBackedFlagTypes are leaf types for which both flag sources register a
+// flag.Value whose storage is a variable the source provides (maps, integral
+// slices, sets, complex numbers, TextUnmarshalers).
+var varBackedFlagTypes = []string{"map[string]string", "[]int", "map[string]struct{}", "complex128", "Color"}
+
 func profile(src srcKind) shape.Profile {
 	lt := leafTypes
+	if src.name == "flag" || src.name == "pflag" {
+		// more flag types whose storage is a Var the source hands to the FlagSet
+		lt = append(append([]string{}, leafTypes...), "complex128", "Color")
+	}
 	if !src.flatten {
 		// only documents can spell a slice of structs
 		lt = append(append([]string{}, leafTypes...), elemLeafTypes...)
@@ -546,8 +566,29 @@ func genCase(src srcKind) func(*rapid.T) Case {
 func genStep(src srcKind) func(*rapid.T) Case {
 	return func(t *rapid.T) Case {
 		s := shape.Gen(t, profile(src))
-		d := &decorator{t: t, src: src, used: map[string]bool{}}
+		d := &decorator{t: t, src: src, used: map[string]bool{}, forceAlias: map[string]bool{}, noAlias: map[string]bool{}}
 		d.allowClassA = rapid.IntRange(0, 5).Draw(t, "allow_class_a") == 0
+		var twinKeys []string
+		twinType := ""
+		if (src.name == "flag" || src.name == "pflag") && rapid.IntRange(0, 9).Draw(t, "twins") < 6 {
+			// two aliased leaves of one Var-backed flag type, both supplied
+			// under their alias names with different values
+			twinType = rapid.SampledFrom(varBackedFlagTypes).Draw(t, "twin_type")
+			wa, wb, wc := extraWord(3000), extraWord(3001), extraWord(3002)
+			a := shape.Field{Name: title(wa), Words: []string{wa}, Kind: "leaf", Type: twinType}
+			b := shape.Field{Name: title(wb), Words: []string{wb}, Kind: "leaf", Type: twinType}
+			d.forceAlias[a.Name], d.forceAlias[b.Name] = true, true
+			twinKeys = []string{a.Name, b.Name}
+			s.Fields = append(s.Fields, a)
+			if rapid.IntRange(0, 2).Draw(t, "twin_nested") == 0 {
+				box := shape.Field{Name: title(wc), Words: []string{wc}, Kind: "struct", Fields: []shape.Field{b}}
+				d.noAlias[box.Name] = true
+				twinKeys[1] = box.Name + "." + b.Name
+				s.Fields = append(s.Fields, box)
+			} else {
+				s.Fields = append(s.Fields, b)
+			}
+		}
 		d.decorate(s.Fields, 0)
 		uniquifyFlatNames(s.Fields)
 		m, err := buildModel(s, src)
@@ -557,9 +598,29 @@ func genStep(src srcKind) func(*rapid.T) Case {
 		g := &supplyGen{t: t, m: m, supply: map[string]uint64{}}
 		g.allowBoth = rapid.Bool().Draw(t, "allow_both")
 		g.fill(m.fields, "")
+		if len(twinKeys) == 2 {
+			sa, sb := g.seed(), g.seed()
+			for textOf(makeVal(twinType, sa)) == textOf(makeVal(twinType, sb)) {
+				sb++
+			}
+			for i, k := range twinKeys {
+				delete(g.supply, k)
+				g.supply[k+aliasMark] = []uint64{sa, sb}[i]
+			}
+		}
 		c := Case{Shape: s, Supply: g.supply}
 		if !src.flatten {
 			c.Elems = g.fillElems()
+		}
+		if src.name == "env" {
+			// further Value() calls on the same Source, each with its own
+			// pattern per aliased field
+			for n := rapid.SampledFrom([]int{0, 1, 1, 2}).Draw(t, "more_env_calls"); n > 0; n-- {
+				eg := &supplyGen{t: t, m: m, supply: map[string]uint64{}}
+				eg.allowBoth = rapid.Bool().Draw(t, "allow_both")
+				eg.fill(m.fields, "")
+				c.EnvCalls = append(c.EnvCalls, eg.supply)
+			}
 		}
 		return c
 	}
@@ -580,6 +641,7 @@ func ezWrap(d dials.Decoder, noSetSlice bool) dials.Decoder {
 
 // runOpts are the per-case options of the source / decoder construction.
 type runOpts struct {
+	envSrc     *env.Source // shared by all Value() calls of an env case
 	noSetSlice bool
 	recase     string
 	setLiteral bool
@@ -638,7 +700,11 @@ func execute(src srcKind, T, pt reflect.Type, sup []supplied, opt runOpts, share
 			restore = append(restore, saved{s.x.name, old, had})
 			os.Setenv(s.x.name, textOf(s.val))
 		}
-		val, err = (&env.Source{Prefix: envPrefix}).Value(ctx, typ)
+		esrc := opt.envSrc
+		if esrc == nil {
+			esrc = &env.Source{Prefix: envPrefix}
+		}
+		val, err = esrc.Value(ctx, typ)
 		return val, err, nil
 	case "flag":
 		args := make([]string, 0, len(sup))
@@ -786,10 +852,44 @@ func runCase(src srcKind) func(Case) vrt.Verdict {
 			if len(c.More) > 0 || opt.recase != "" || opt.noSetSlice || (opt.setLiteral && src.name == "env") {
 				return vrt.Discardf("decoder option in a flatten source")
 			}
+			if src.name != "env" && len(c.EnvCalls) > 0 {
+				return vrt.Discardf("env calls in a flag check")
+			}
+			if src.name == "env" {
+				opt.envSrc = &env.Source{Prefix: envPrefix}
+			}
 			v := judge(c, opt, nil)
-			if v.Status == vrt.StatusOK && src.name != "env" {
+			if v.Status != vrt.StatusOK {
+				return v
+			}
+			for i, sup := range c.EnvCalls {
+				c2 := c
+				c2.Supply = sup
+				sv := judge(c2, opt, nil)
+				switch sv.Status {
+				case vrt.StatusViolation:
+					sv.Msg = fmt.Sprintf("Value() call #%d of %d on one env.Source (same config type, environment changed in between): %s", i+2, len(c.EnvCalls)+1, sv.Msg)
+					return sv
+				case vrt.StatusDiscard:
+					return sv
+				}
+				v.NonTrivial = v.NonTrivial || sv.NonTrivial
+				v.Labels = append(v.Labels, sv.Labels...)
+			}
+			if src.name == "env" {
+				v.Labels = append(v.Labels, fmt.Sprintf("value-calls-on-one-env-source:%d", len(c.EnvCalls)+1))
+			} else {
 				v.Labels = append(v.Labels, fmt.Sprintf("set-struct-literal:%v", opt.setLiteral))
 			}
+			seen := map[string]bool{}
+			uniq := v.Labels[:0]
+			for _, l := range v.Labels {
+				if !seen[l] {
+					seen[l] = true
+					uniq = append(uniq, l)
+				}
+			}
+			v.Labels = uniq
 			return v
 		}
 		if opt.setLiteral {
@@ -984,6 +1084,23 @@ func judgeStep(src srcKind) func(Case, runOpts, dials.Decoder) vrt.Verdict {
 		if zeroSupplied {
 			lab["zero-value-supplied"] = true
 		}
+		if src.name == "flag" || src.name == "pflag" {
+			byType := map[string]int{}
+			for _, sp := range sup {
+				if strings.HasSuffix(sp.x.key, aliasMark) {
+					for _, vt := range varBackedFlagTypes {
+						if sp.x.f.typ == vt {
+							byType[vt]++
+						}
+					}
+				}
+			}
+			for vt, n := range byType {
+				if n >= 2 {
+					lab["two-alias-flags-of-one-var-backed-type:"+vt] = true
+				}
+			}
+		}
 		emptyLabels(ev.pats, c.Supply, lab)
 		embedLabels(m, ev.pats, lab)
 		elemLabels(elemPats, lab)
@@ -1064,6 +1181,8 @@ func rule(src string) string {
 		"each field (leaf or struct-typed, any depth) independently gets an explicit dials tag (single word / camelCase / snake_case / kebab-case, globally unique words) or stays untagged, and a dialsalias tag with probability 1/2 (leaves) or 2/5 (struct-typed fields; at most two aliased structs on one path and no further aliases once the type has ~100 expanded names, because every aliased struct doubles the names below it); leaves not below an aliased struct may also get the source's own primary and/or alias tag (dialsenv[alias], dialsflag[alias], dialspflag[alias]; for decoders the tags of all three are noise); the combination 'source-specific primary + dialsalias, no source-specific alias' is allowed in one case in six; tag order is shuffled; Go field names are extended where needed so that flattened name concatenations stay unique. " +
 		"In the decoder checks a quarter of the fields that have a dials tag (aliased or not, leaf or struct-typed, any depth) also carry hand-written json / yaml / toml tags with the same name (plain, or with the option ',omitempty'): the decoder goes by that tag for the original field, the alias copy must not inherit it. " +
 		"Per aliased field one of neither / primary only / alias only / both (half of the cases exclude 'both'); an aliased struct-typed field duplicates its subtree, 'supplied under a name' = at least one leaf of that copy supplied; other leaves set or unset at random; one scalar value in five is the zero value of its type and one collection value in four is an explicitly empty non-nil collection (NAME=\"\", -name=, [] / {}), which must count as set exactly like any other value (nil vs empty is compared exactly). " +
+		"The env check makes 1..3 Value() calls on ONE *env.Source with the same config type, each call with its own neither / primary / alias / both pattern per aliased field and the environment changed in between (the previous call's variables are removed), each call judged on its own. " +
+		"In the flag and pflag checks the leaf grammar also has complex128 and a TextUnmarshaler (Color), and 3/5 of the types get two extra aliased leaves of ONE Var-backed flag type (map[string]string, []int, string set, complex128, Color; both at the root, or one in a nested struct) that are both supplied under their ALIAS names with different values on the one command line. " +
 		"In the flag and pflag checks the Set is built by NewSetWithArgs or (1/2) declared as a struct literal &Set{Flags: fs, ParseFunc: ...} that registers lazily on the first Value(). " +
 		"In the decoder checks the decoder below the alias wrapper is the plain format decoder or (1/2) itself a sourcewrap.NewTransformingDecoder with a tag-reformatting mangler (DecodeGoTags -> lower_snake | UPPER_SNAKE | kebab); the keys of the document, primary and alias alike, are then the re-cased join of the words of the tag / field name / embedded type name (as read off the unmodified tree: the alias copy is re-cased exactly like the original). " +
 		"In the decoder checks one alias-wrapped decoder value is built per case and used for 1..3 decodes in a row (1: 2/5, 2: 2/5, 3: 1/5), each with a different generated config type, its own supplied leaves and its own document, each judged on its own by the same oracle (a wrapper must not carry anything from one config type to the next). " +
